@@ -306,9 +306,7 @@ def run(chk, tier, scale=1.0):
     import build as buildmod
     bplain = buildmod.build_daemon(buildmod.fresh_dir("c09p-" + tier), "plain")
     # the 10.6 s idle run(s) go on in the background while everything else runs
-    from concurrent.futures import ThreadPoolExecutor
-    old_pool = ThreadPoolExecutor(4)
-    old_futs = [old_pool.submit(_old_requests_worker, dict(build=b, seed=chk.seed * 7 + k, n=4)) for k in range(1 if tier == "quick" else 4)]
+    old_bg = vcommon.Background(_old_requests_worker, [dict(build=b, seed=chk.seed * 7 + k, n=4) for k in range(1 if tier == "quick" else 4)])
     n = int((320 if tier == "quick" else 6000) * scale)
     jobs = []
     allpat = list(range(256))
@@ -334,8 +332,7 @@ def run(chk, tier, scale=1.0):
     hj = pcommon.hist_jobs(b, int((240 if tier == "quick" else 6000) * scale), chk.seed, PROPS, tag="c09h", vary_addr=0.85,
                            opts={"weights": {"reannounce": 8, "disconnect": 5, "registered": 3, "reply": 22, "timeout": 4}})
     hres = vcommon.pmap(prun.hist_worker, hj, chunksize=4)
-    prun.fold(chk, "C09", [f.result() for f in old_futs])
-    old_pool.shutdown()
+    prun.fold(chk, "C09", old_bg.results())
     prun.fold(chk, "C09", hres)
     chk.count("lockstep_histories", len(hres))
     chk.rule = ("batch histories (12-30 clients, ids up to 2^31-1) on the UNHOOKED channel: announced addresses cover the 256 zero/non-zero group patterns with 1-4 digit groups in "
